@@ -16,6 +16,27 @@ CHECKS = {
         note=TRUST + "; pigeonhole (injective on range(n) => bijective) not re-proved; callee treated as a function of its arguments",
         technique="contract-based deductive verification (AST symbolic execution -> z3 VCs, loop invariants) + exhaustive ground evaluation of tables",
     ),
+    "C20": dict(
+        category="proof",
+        text="set_four_index_element, volume, strtobool, check_dm and derive_naturals are verified against contracts taken from the statement (array theory / nonlinear real arithmetic / finite maps in z3); the matrix-algebra consequence of the assumed scipy.linalg.eigh contract (reconstruction of the density matrix, orthonormality) is a Lean 4 + Mathlib lemma; the floating-point side is covered only by a bounded stand-in on random matrices, labelled bounded.",
+        design_ref="DESIGN.md 6/C20",
+        note=TRUST + "; assumed external contract of scipy.linalg.eigh; closed forms of norm/cross/det",
+        technique="contract-based deductive verification (AST symbolic execution -> z3 VCs) + Lean lemma over contracts + bounded stand-in for float behaviour",
+    ),
+    "C11": dict(
+        category="other",
+        text="Inductive proof over all histories: a representation invariant on IOData's stored fields is shown to be established by the constructor and preserved by each of the 10 assignments and by reads, from an arbitrary state satisfying it (no bound on history length); the statement's clauses (charge = core charges - electrons, read-back, TypeError + unchanged observables on rejected assignments, orbitals take precedence, idempotent reads) are postconditions proved through the real getters/setters/validators with an attrs model. Category is `other` only because one obligation is refuted by an open known finding (stale lazy default of atcorenums), so discharged != obligations.",
+        design_ref="DESIGN.md 6/C11",
+        note=TRUST + "; attrs __init__/__setattr__ model cross-checked by the bounded exhaustive-history driver on the real class",
+        technique="contract-based deductive verification: invariant + per-operation contracts (AST symbolic execution -> z3), exhaustive depth-2/3 histories on the real class as bounded cross-check",
+    ),
+    "C12": dict(
+        category="other",
+        text="MolecularOrbitals: invariant established by the constructor and preserved by every assignment of the quantifier's alphabet, getter/setter contracts for every kind and all array contents (element-wise array theory, summation lemmas proved by explicit induction); Shell: validators and nbasis loop invariant. Category `other` because four obligations are refuted by open known findings (length-1 arrays are broadcast by the occsa/occsb setters).",
+        design_ref="DESIGN.md 6/C12",
+        note=TRUST + "; (a+b)/2+(a-b)/2 == a exactly (A-FP)",
+        technique="contract-based deductive verification (AST symbolic execution -> z3 VCs, induction lemmas for sums) + bounded enumeration on the real classes",
+    ),
 }
 
 REASON_TODO = "check not built yet (build in progress); planned in DESIGN.md section 6"
@@ -40,7 +61,7 @@ def main():
     na = [{"property_id": p["id"], "reason": NA.get(p["id"], REASON_TODO)} for p in PROPS if p["id"] not in CHECKS]
     m = {
         "version": 1,
-        "setup_cmd": "true",
+        "setup_cmd": "cd /opt/veriftools/mathlib4 && lake env lean /verif/lemmas/NaturalOrbitals.lean",
         "hooks": {
             "guard": "IODATA_VERIF",
             "enable": "no source hooks: contracts are sidecars under /verif; checks read /repo's working tree directly (PYVC_REPO overrides the path for scratch copies)",
